@@ -33,6 +33,9 @@ pub enum Op {
     Heart,
     /// the peer sends a keep-alive request: the session's answer is a packet like any other
     PeerHeart,
+    /// the peer's keep-alive request arrives while this data write (stream index, length) is under
+    /// way: the answer is written by the receive task, a second writer inside the session
+    DataDuringPeerHeart(u16, usize),
 }
 
 #[derive(Clone, Debug, Serialize, Deserialize)]
@@ -43,6 +46,9 @@ pub struct WireCase {
     /// the transport's k-th write call accepts at most this many bytes (empty: everything)
     #[serde(default)]
     pub write_sizes: Vec<usize>,
+    /// Some(c): at most c bytes in flight, a peer task drains them - writes wait in the transport
+    #[serde(default)]
+    pub capacity: Option<usize>,
 }
 
 pub struct WireFam;
@@ -61,6 +67,7 @@ pub fn ops_strategy(max_ops: usize) -> BoxedStrategy<Vec<Op>> {
         6 => (any::<u16>(), len).prop_map(|(i, l)| Op::Data(i, l)),
         1 => Just(Op::Heart),
         1 => Just(Op::PeerHeart),
+        1 => (any::<u16>(), prop_oneof![Just(600usize), Just(3000), 1usize..5000]).prop_map(|(i, l)| Op::DataDuringPeerHeart(i, l)),
     ];
     proptest::collection::vec(op, 0..max_ops).boxed()
 }
@@ -89,13 +96,27 @@ pub fn drive(scheme_text: &str, ops: &[Op], draw_seed: u64, out: &mut Outcome) -
 /// As `drive`, over a transport whose k-th write call accepts at most `write_sizes[k % len]` bytes
 /// (empty: everything): short writes, as a socket under back-pressure produces them.
 pub fn drive_on(scheme_text: &str, ops: &[Op], draw_seed: u64, write_sizes: &[usize], out: &mut Outcome) -> Result<WireRun, Fail> {
+    drive_full(scheme_text, ops, draw_seed, write_sizes, None, out)
+}
+
+/// As `drive_on`; with `capacity` the transport holds at most that many bytes in flight and a peer
+/// task drains it, so every larger write waits in the transport and other tasks of the session run.
+pub fn drive_full(scheme_text: &str, ops: &[Op], draw_seed: u64, write_sizes: &[usize], capacity: Option<usize>, out: &mut Outcome) -> Result<WireRun, Fail> {
     let write_sizes = write_sizes.to_vec();
     let scheme_text = scheme_text.to_string();
     let ops = ops.to_vec();
     alloc_guard::reset();
     let res = run_virtual(async move {
         install_draw(draw_seed);
-        let mut l = link(PipeParams { capacity: 16 << 20, write_sizes, ..Default::default() }, PipeParams::default());
+        let mut l = link(PipeParams { capacity: capacity.unwrap_or(16 << 20), write_sizes, ..Default::default() }, PipeParams::default());
+        if capacity.is_some() {
+            let mut sr = l.s_r.take().unwrap();
+            tokio::spawn(async move {
+                use tokio::io::AsyncReadExt;
+                let mut b = vec![0u8; 4096];
+                while matches!(sr.read(&mut b).await, Ok(n) if n > 0) {}
+            });
+        }
         let pad = padding(&scheme_text);
         let md5 = format!("{:x}", md5::compute(scheme_text.as_bytes()));
         let sess = client_session(&mut l, pad, None);
@@ -165,6 +186,23 @@ pub fn drive_on(scheme_text: &str, ops: &[Op], draw_seed: u64, write_sizes: &[us
                     settle(tokio::time::Duration::from_millis(20)).await;
                     Some(Ok(()))
                 }
+                Op::DataDuringPeerHeart(i, len) => {
+                    use tokio::io::AsyncWriteExt;
+                    if streams.is_empty() {
+                        continue;
+                    }
+                    let sid = streams[idx(*i, streams.len())];
+                    name = format!("write_data_frame({sid},{len}) while the peer's HeartRequest is being answered");
+                    if peer_w.write_all(&rc::encode(&RFrame::ctl(rc::HEART_REQ, 0))).await.is_err() {
+                        return Err(Fail::new("C04.nofail", "C04.nofail:err:peer-heart", "the session closed its receiving side"));
+                    }
+                    let data = keyed(sid, 0, calls.len() as u64 * 1_000_003, *len);
+                    expected.extend(rc::psh_frames(sid, &data));
+                    expected.push(RFrame::ctl(rc::HEART_RESP, 0));
+                    let r = within(WATCHDOG, sess.write_data_frame(sid, Bytes::from(data))).await;
+                    settle(tokio::time::Duration::from_millis(20)).await;
+                    r
+                }
                 Op::Heart => {
                     name = "write_control_frame(HeartRequest)".to_string();
                     expected.push(RFrame::ctl(rc::HEART_REQ, 0));
@@ -215,23 +253,40 @@ pub fn drive_on(scheme_text: &str, ops: &[Op], draw_seed: u64, write_sizes: &[us
                 frames.len(),
                 scheme_text
             );
-            let mut kept: Vec<&RFrame> = Vec::new();
+            let mut kept_all: Vec<&RFrame> = Vec::new();
             for f in &frames {
                 if f.cmd == rc::WASTE {
                     ensure!(f.sid == 0, "C04.waste", "padding frame with stream id {} after {name}", f.sid);
                 } else {
-                    kept.push(f);
+                    kept_all.push(f);
                 }
             }
+            // answers to the peer's keep-alive requests are written by the receive task: where they land
+            // between the frames of the calling task is not fixed - they are counted, the rest is compared
+            // position by position
+            let is_answer = |f: &RFrame| f.cmd == rc::HEART_RESP && f.sid == 0;
+            let answers_wire = kept_all.iter().filter(|f| is_answer(f)).count();
+            let answers_due = expected[..flushed].iter().filter(|f| is_answer(f)).count();
             ensure!(
-                kept.len() == flushed,
+                answers_wire == answers_due,
+                "C04.erase",
+                "after {name}: {} answers to keep-alive requests on the wire, {} requests had been sent and must have been answered (scheme {:?})",
+                answers_wire,
+                answers_due,
+                scheme_text
+            );
+            let kept: Vec<&RFrame> = kept_all.iter().copied().filter(|f| !is_answer(f)).collect();
+            let expected_fixed: Vec<&RFrame> = expected.iter().filter(|f| !is_answer(f)).collect();
+            let flushed_fixed = flushed - answers_due;
+            ensure!(
+                kept.len() == flushed_fixed,
                 "C04.erase",
                 "after {name}: {} non-padding frames on the wire, {} were submitted and must have been sent (scheme {:?})",
                 kept.len(),
-                flushed,
+                flushed_fixed,
                 scheme_text
             );
-            for (i, (g, e)) in kept.iter().zip(expected.iter()).enumerate() {
+            for (i, (g, e)) in kept.iter().zip(expected_fixed.iter()).enumerate() {
                 if e.cmd == rc::SETTINGS {
                     let m = parse_settings(&g.data);
                     ensure!(
@@ -244,7 +299,7 @@ pub fn drive_on(scheme_text: &str, ops: &[Op], draw_seed: u64, write_sizes: &[us
                     );
                 } else {
                     ensure!(
-                        *g == e,
+                        *g == *e,
                         "C04.erase",
                         "after {name}: frame #{i} on the wire is cmd={} sid={} len={}, submitted was cmd={} sid={} len={} (payload equal: {}) (scheme {:?})",
                         g.cmd,
@@ -258,7 +313,7 @@ pub fn drive_on(scheme_text: &str, ops: &[Op], draw_seed: u64, write_sizes: &[us
                     );
                 }
             }
-            let nonwaste: usize = kept.iter().map(|f| f.wire_len()).sum();
+            let nonwaste: usize = kept_all.iter().map(|f| f.wire_len()).sum();
             calls.last_mut().unwrap().pending = nonwaste - nonwaste_before;
             nonwaste_before = nonwaste;
         }
@@ -283,14 +338,16 @@ impl Family for WireFam {
             3 => Just(Vec::new()),
             1 => proptest::collection::vec(prop_oneof![Just(7usize), Just(8), Just(256), 64usize..5000], 1..5),
         ];
-        (scheme(size_any(), 8), ops_strategy(12), any::<u64>(), short)
-            .prop_map(|(scheme, ops, draw_seed, write_sizes)| WireCase { scheme, ops, draw_seed, write_sizes })
+        let cap = proptest::option::weighted(0.3, prop_oneof![Just(256usize), Just(1024), Just(4096)]);
+        (scheme(size_any(), 8), ops_strategy(12), any::<u64>(), short, cap)
+            .prop_map(|(scheme, ops, draw_seed, write_sizes, capacity)| WireCase { scheme, ops, draw_seed, write_sizes, capacity })
             .boxed()
     }
     fn run(&self, case: &WireCase, _cx: &CaseCtx) -> CaseResult {
         let mut out = Outcome::new();
         let text = case.scheme.text();
-        let run = drive_on(&text, &case.ops, case.draw_seed, &case.write_sizes, &mut out)?;
+        let run = drive_full(&text, &case.ops, case.draw_seed, &case.write_sizes, case.capacity, &mut out)?;
+        out.class_if(case.capacity.is_some() && case.ops.iter().any(|o| matches!(o, Op::DataDuringPeerHeart(..))), "second-writer-during-a-back-pressured-write");
         out.class_if(!case.write_sizes.is_empty(), "transport-takes-short-writes");
         // classes that need the scheme
         if let Some(s) = crate::reference::scheme::RefScheme::parse(text.as_bytes()) {
